@@ -129,6 +129,7 @@ type RunCfg struct {
 	Thorough bool
 	Small    bool // bodies at most ~100 bytes (large tours)
 	KeyModes []int
+	Large    bool // body sizes around 1 MiB and of several MiB
 	Reopen   bool // C15: close and reopen before every read-only tail / at the end
 	Workers  int
 	Addr     string // "", "host:<base>", "slashes", "api" (Backend methods called directly)
@@ -144,6 +145,9 @@ func runTour(cfg *RunCfg, sysName string, salt int64, keyMode int, tour []Step) 
 	conc := NewConc(cfg.Seed, salt, cfg.Thorough)
 	conc.keyMode = keyMode
 	conc.small = cfg.Small
+	if cfg.Large {
+		conc.sizes = sizeClassesLarge
+	}
 	x := NewExec(sys, conc)
 	switch {
 	case strings.HasPrefix(cfg.Addr, "host:"):
@@ -223,55 +227,62 @@ func replayTours(in io.Reader, cfg *RunCfg, findings *Findings, maxReport int) *
 					continue // the server under test hangs: stop spending a deadline per tour
 				}
 				for _, sysName := range cfg.Systems {
-					for _, km := range cfg.KeyModes {
-						salt := int64(j.idx)
-						m, steps, err := runTour(cfg, sysName, salt, km, j.tour)
-						if err != nil {
-							fmt.Fprintln(os.Stderr, "harness error:", err)
-							os.Exit(2)
-						}
-						var confirmed *Mismatch
-						if m != nil {
-							// rule 4: re-execute on a fresh instance before believing it
-							m2, _, _ := runTour(cfg, sysName, salt, km, j.tour)
-							if m2 != nil && m2.At == m.At {
-								confirmed = m2
+					rotations := 1
+					if cfg.Large {
+						rotations = len(sizeClassesLarge) // every atom takes every large size class once
+					}
+					for _, km0 := range cfg.KeyModes {
+						for rot := 0; rot < rotations; rot++ {
+							km := km0
+							salt := int64(j.idx) + int64(rot)*saltShiftUnit
+							m, steps, err := runTour(cfg, sysName, salt, km, j.tour)
+							if err != nil {
+								fmt.Fprintln(os.Stderr, "harness error:", err)
+								os.Exit(2)
 							}
-						}
-						mu.Lock()
-						sum.Executions++
-						sum.Steps += steps
-						sum.PerSystem[sysName]++
-						if m != nil && confirmed == nil {
-							sum.Unconfirmed++
-						}
-						if confirmed != nil && len(confirmed.Msgs) > 0 && strings.Contains(confirmed.Msgs[0], "did not return within the deadline") {
-							atomic.AddInt32(&hangs, 1)
-						}
-						if confirmed != nil {
-							if id := findings.Classify(confirmed, cfg.Property); id != "" {
-								confirmed.Finding = id
-								sum.Known[id]++
-								if sum.KnownEx[id] == nil || len(confirmed.Tour) < len(sum.KnownEx[id].Tour) {
-									sum.KnownEx[id] = confirmed
+							var confirmed *Mismatch
+							if m != nil {
+								// rule 4: re-execute on a fresh instance before believing it
+								m2, _, _ := runTour(cfg, sysName, salt, km, j.tour)
+								if m2 != nil && m2.At == m.At {
+									confirmed = m2
 								}
-							} else {
-								sig := confirmed.Signature()
-								sum.SigCounts[sig]++
-								if sum.SigCounts[sig] <= 2 && len(sum.Mismatches) < maxReport {
-									sum.Mismatches = append(sum.Mismatches, confirmed)
+							}
+							mu.Lock()
+							sum.Executions++
+							sum.Steps += steps
+							sum.PerSystem[sysName]++
+							if m != nil && confirmed == nil {
+								sum.Unconfirmed++
+							}
+							if confirmed != nil && len(confirmed.Msgs) > 0 && strings.Contains(confirmed.Msgs[0], "did not return within the deadline") {
+								atomic.AddInt32(&hangs, 1)
+							}
+							if confirmed != nil {
+								if id := findings.Classify(confirmed, cfg.Property); id != "" {
+									confirmed.Finding = id
+									sum.Known[id]++
+									if sum.KnownEx[id] == nil || len(confirmed.Tour) < len(sum.KnownEx[id].Tour) {
+										sum.KnownEx[id] = confirmed
+									}
 								} else {
-									// keep the shortest example per signature
-									for i, o := range sum.Mismatches {
-										if o.Signature() == sig && len(confirmed.Tour) < len(o.Tour) {
-											sum.Mismatches[i] = confirmed
-											break
+									sig := confirmed.Signature()
+									sum.SigCounts[sig]++
+									if sum.SigCounts[sig] <= 2 && len(sum.Mismatches) < maxReport {
+										sum.Mismatches = append(sum.Mismatches, confirmed)
+									} else {
+										// keep the shortest example per signature
+										for i, o := range sum.Mismatches {
+											if o.Signature() == sig && len(confirmed.Tour) < len(o.Tour) {
+												sum.Mismatches[i] = confirmed
+												break
+											}
 										}
 									}
 								}
 							}
+							mu.Unlock()
 						}
-						mu.Unlock()
 					}
 				}
 			}
